@@ -40,9 +40,12 @@ MANIFEST = {
     "technique": "TLA+ model checking (TLC) + spec-to-implementation case replay + fault enumeration on the real code",
 }
 
-# classes of violations the model exhibits under its `Quirks` (see spec/wal/NOTES.md); each needs either a
-# known_findings.json entry or a fix of the code (then remove the quirk from spec/wal/WalMC.cfg)
+# classes of violations the model exhibits under its `Quirks` (see spec/wal/NOTES.md). All four were repaired in
+# surrealkv (known_findings.json: status fixed); spec/wal/WalMC.cfg therefore has Quirks = {} and Known = {}.
 MODEL_CLASSES = ["meta_before_crc", "torn_tail_append", "writer_before_recovery", "repair_temp_reuse"]
+
+PINNED_QUIRKS = '{"MetaBeforeCrc", "TornTailAppend", "WriterFirst", "RepairTempReuse"}'
+PINNED_KNOWN = '{"meta_before_crc", "torn_tail_append", "writer_before_recovery", "repair_temp_reuse"}'
 
 WORKERS = int(os.environ.get("VERIF_TLC_WORKERS", "8"))
 THREADS = int(os.environ.get("VERIF_DRIVER_THREADS", "8"))
@@ -111,15 +114,33 @@ def run(ctx):
     scratch = scratch_root()
     seen = set()
     try:
-        # 0. the design with the three quirks repaired satisfies C12 without any excuse (small bounds)
-        text = tlc.cfg_variant("wal", "WalMC.cfg", subst={"Quirks": "{}", "Known": "{}", "Lens": ctx.pick("{2, 9}", "{2, 3, 9, 12}"),
-                                                          "Classes": '{"gen", "zero", "one"}', "PostLens": "{3}"})
-        r0 = tlc.run("wal", "WalMC", "WalMC_fixed.cfg", cfg_text=text, coverage=False, timeout=900,
-                     out_name="c12_fixed_" + ctx.tier, workers=WORKERS)
-        r0["constants"] = ["Quirks={}", "Known={}", "Lens=" + ctx.pick("{2,9}", "{2,3,9,12}"), "Classes={gen,zero,one}", "B=16"]
-        r0["invariants"] = tlc._parse_cfg_list(os.path.join(core.SPEC, "wal", "WalMC.cfg"), "INVARIANT")
-        ctx.add_tlc(r0)
-        os.remove(r0["out"])
+        # 0. teeth: the model of the *pinned* (pre-fix) behaviour must still produce its counterexamples ...
+        small = {"Lens": ctx.pick("{2, 9}", "{2, 3, 9, 12}"), "Classes": '{"gen", "zero", "one"}', "PostLens": "{3}"}
+        text = tlc.cfg_variant("wal", "WalMC.cfg", subst=dict(small, Quirks=PINNED_QUIRKS, Known="{}"))
+        t0 = tlc.run("wal", "WalMC", "WalMC_teeth.cfg", cfg_text=text, coverage=False, timeout=900,
+                     out_name="c12_teeth_" + ctx.tier, workers=WORKERS, must_pass=False)
+        os.remove(t0["out"])
+        if not t0["violated"]:
+            raise core.ToolError("the model of the pinned behaviour (Quirks=%s, Known={}) no longer violates any invariant: "
+                                 "the spec has lost its teeth" % PINNED_QUIRKS)
+        # ... and none of the cases that model calls violating may reproduce on the repaired code
+        text = tlc.cfg_variant("wal", "WalMC.cfg", subst=dict(small, Quirks=PINNED_QUIRKS, Known=PINNED_KNOWN),
+                               add=["ACTION_CONSTRAINT Export"])
+        t1 = tlc.run("wal", "WalMC", "WalMC_pinned.cfg", cfg_text=text, coverage=False, timeout=900,
+                     out_name="c12_pinned_" + ctx.tier, workers=WORKERS)
+        s = core.run_driver("wal_run", ["cases", t1["out"], "--threads", THREADS, "--scratch", os.path.join(scratch, "pinned")],
+                            timeout=3000)
+        os.remove(t1["out"])
+        pinned_bad = s["extra"]["counters"].get("model_violates", 0)
+        if pinned_bad == 0:
+            raise core.ToolError("the pinned model calls none of its exported cases violating")
+        ctx.cov["teeth"] = {"pinned_quirks": PINNED_QUIRKS, "invariant_violated_by_pinned_model": t0["violated"],
+                            "pinned_model_states": t1["distinct"], "cases_replayed": s["cases"],
+                            "cases_the_pinned_model_calls_violating": pinned_bad,
+                            "of_those_reproduced_on_the_code": s["violation_count"],
+                            "prediction_mismatches_pinned_model_vs_code": s["extra"]["counters"].get("drift", 0)}
+        s["drift_count"], s["drift"] = 0, []          # the pinned model is *expected* to mispredict the repaired code
+        report(ctx, s, seen)                          # a reproduction is a VIOLATION (a fix was lost)
 
         # 1. the model of the code as it is: invariants + export of every terminal case, then replay
         model_cex = []
